@@ -135,6 +135,7 @@ structure SpecWF (spec : Spec) : Prop where
   strand : ∀ o ∈ spec.strands, ItemsOK spec o.items o.bases
   struct : ∀ so ∈ spec.structs, (∀ n ∈ so.strands, (spec.findStrand n).isSome = true) ∧
     getBonds so.struct = .ok so.bonds
+  structLen : ∀ so ∈ spec.structs, so.len = ((structStrands spec so).map (fun q => q.2.len)).sum
   equal : ∀ its ∈ spec.equals, ∀ i ∈ its, (spec.findSeq i.name).isSome = true
 
 theorem find?_mem' {α : Type} {p : α → Bool} {l : List α} {a : α} (h : l.find? p = some a) : a ∈ l ∧ p a = true :=
@@ -1023,5 +1024,193 @@ theorem key_den_strand {tbl : CodeTable} {spec : Spec} (wf : SpecWF spec) (ok : 
           rw [List.mem_filter]; exact ⟨hmem, by simp [hsup]⟩
         · simp; omega
       exact hb' (o.name, o.template) hdom rfl p.2 hch
+
+/-! ## strand layout: the soundness theorems -/
+
+/-- parity reachability in the seeded graph implies that the design forces the two nucleotides equal / complementary -/
+theorem reach_sound_strand {tbl : CodeTable} {spec : Spec} (wf : SpecWF spec) (ok : SpecCodes tbl spec)
+    {s : Seeds} {c : Cons} (hs : seeds .strand spec = .ok s) (hb : build s = .ok c)
+    {x y : Nat} {p : Bool} (h : Reach (adjOf c.keys c.eq) (adjOf c.keys c.wc) x p y) {m : Nuc}
+    (hm : denS spec x = some m) : ∃ n, denS spec y = some n ∧ NucReach (Pil.denote spec) m p n := by
+  obtain ⟨_, hE, hW⟩ := seeds_sound_strand wf ok hs hb
+  obtain ⟨_, _, _, _, nbE, nbW⟩ := build_spec (tbl := tbl) hb (seeds_codes ok hs)
+  exact reach_sound nbE nbW hE hW h hm
+
+theorem flipB_false (b : Base) : flipB b false = b := rfl
+
+/-- a satisfiable design never makes the seeded graph over-constrained (strand layout) -/
+theorem graphSat_of_satisfiable_strand {tbl : CodeTable} {spec : Spec} (wf : SpecWF spec) (ok : SpecCodes tbl spec)
+    (hN : tbl.maskC 'N' = 15) {s : Seeds} {c : Cons} (hs : seeds .strand spec = .ok s) (hb : build s = .ok c)
+    (hsat : Satisfiable tbl (Pil.denote spec)) : GraphSat tbl c := by
+  obtain ⟨a, ha⟩ := hsat
+  obtain ⟨hokv, hreach⟩ := (sat_iff_asat tbl _ a).1 ha
+  obtain ⟨wfc, _⟩ := build_spec (tbl := tbl) hb (seeds_codes ok hs)
+  intro x hx
+  obtain ⟨nx, hnx, _⟩ := key_den_strand wf ok hN hs hb hx
+  constructor
+  · intro hself
+    obtain ⟨n', hn', hr⟩ := reach_sound_strand wf ok hs hb hself hnx
+    rw [hnx] at hn'; cases hn'
+    have := hreach _ _ _ hr
+    have e : ((true != nx.comp) != nx.comp) = true := by cases nx.comp <;> rfl
+    rw [e] at this
+    exact flipB_true_ne _ this.symm
+  · refine ⟨val a nx, ?_⟩
+    intro y p hy
+    have hyk : y ∈ c.keys := by
+      have := hy.mem_keys wfc.pre.keyClosed (by rw [keys_adjOf]; exact hx)
+      rwa [keys_adjOf] at this
+    obtain ⟨ny, hny, htmpl⟩ := key_den_strand wf ok hN hs hb hyk
+    obtain ⟨n', hn', hr⟩ := reach_sound_strand wf ok hs hb hy hnx
+    rw [hny] at hn'; cases hn'
+    apply htmpl
+    have h1 := hreach _ _ _ hr
+    have h2 : flipB (flipB (val a nx) p) ny.comp = a ny.var := by
+      rw [h1, val_eq, flipB_flipB, flipB_flipB]
+      congr 1
+      cases p <;> cases nx.comp <;> cases ny.comp <;> rfl
+    rw [h2]
+    exact hokv ny.var
+
+/-- what exactness over the seeded graph means for the design (strand layout, soundness half): the position
+    `eq[i]` and the position `wc[i]` carry nucleotides the design forces equal / complementary to the one at `i`,
+    and `st[i]` allows every base that the design allows there -/
+theorem arrays_sound_strand_aux {tbl : CodeTable} {spec : Spec} (wf : SpecWF spec) (ok : SpecCodes tbl spec)
+    (hN : tbl.maskC 'N' = 15) {s : Seeds} {c : Cons} (hs : seeds .strand spec = .ok s) (hb : build s = .ok c)
+    {a : Arrays} (G : GraphExact tbl c s.P a) {i : Nat} (hi : i < a.1.length) (hk : i ∈ c.keys) :
+    ∃ m, denS spec i = some m ∧
+      (∀ r, a.1[i]? = some (some r) → ∃ n, denS spec r = some n ∧ NucReach (Pil.denote spec) m false n) ∧
+      (∀ w, a.2.1[i]? = some (some w) → ∃ n, denS spec w = some n ∧ NucReach (Pil.denote spec) m true n) ∧
+      (∀ ch, a.2.2[i]? = some (some ch) → ∀ b,
+        (∀ v q, ParityReach (Pil.denote spec) m.var q v →
+          okVar tbl (Pil.denote spec) v (flipB (flipB b m.comp) q)) → hasB (tbl.maskC ch) b) := by
+  obtain ⟨wfc, _⟩ := build_spec (tbl := tbl) hb (seeds_codes ok hs)
+  obtain ⟨m, hm, _⟩ := key_den_strand wf ok hN hs hb hk
+  obtain ⟨⟨v, hv, hvmin⟩, ⟨w, hw, hwmin⟩, ch, hch, _, hbits⟩ := G.key i hi hk
+  refine ⟨m, hm, ?_, ?_, ?_⟩
+  · intro r hr
+    rw [hv] at hr; cases hr
+    exact reach_sound_strand wf ok hs hb hvmin.1 hm
+  · intro w' hw'
+    rw [hw] at hw'; cases hw'
+    exact reach_sound_strand wf ok hs hb hwmin.1 hm
+  · intro ch' hch' b hsem
+    rw [hch] at hch'; cases hch'
+    rw [hbits]
+    intro y p hy
+    have hyk : y ∈ c.keys := by
+      have := hy.mem_keys wfc.pre.keyClosed (by rw [keys_adjOf]; exact hk)
+      rwa [keys_adjOf] at this
+    obtain ⟨ny, hny, htmpl⟩ := key_den_strand wf ok hN hs hb hyk
+    obtain ⟨n', hn', hr⟩ := reach_sound_strand wf ok hs hb hy hm
+    rw [hny] at hn'; cases hn'
+    apply htmpl
+    have := hsem ny.var _ hr
+    have e : flipB (flipB b m.comp) ((p != m.comp) != ny.comp) = flipB (flipB b p) ny.comp := by
+      rw [flipB_flipB, flipB_flipB]
+      congr 1
+      cases p <;> cases m.comp <;> cases ny.comp <;> rfl
+    rwa [e] at this
+
+/-! ## strand layout: where the strands sit -/
+
+theorem layStrandAux_closed (l : List StrandObj) (p k : Nat) (hk : k < l.length) :
+    (layStrandAux l p).1[k]? = some (some (p + ((l.take k).map (fun o => o.len + Generated.strandGap)).sum)) := by
+  induction l generalizing p k with
+  | nil => simp at hk
+  | cons a l ih =>
+    simp only [layStrandAux]
+    cases k with
+    | zero => simp
+    | succ k =>
+      simp only [List.length_cons] at hk
+      have := ih (p + a.len + Generated.strandGap) k (by omega)
+      simp only [List.getElem?_cons_succ, List.take_succ_cons, List.map_cons, List.sum_cons]
+      rw [this]
+      congr 2
+      omega
+
+theorem layStrandAux_total (l : List StrandObj) (p k : Nat) (o : StrandObj) (h : l[k]? = some o) :
+    p + ((l.take k).map (fun o => o.len + Generated.strandGap)).sum + o.len + Generated.strandGap
+      ≤ (layStrandAux l p).2 := by
+  induction l generalizing p k with
+  | nil => simp at h
+  | cons a l ih =>
+    simp only [layStrandAux]
+    cases k with
+    | zero =>
+      simp only [List.getElem?_cons_zero, Option.some.injEq] at h
+      subst h
+      simp only [List.take_zero, List.map_nil, List.sum_nil, Nat.add_zero]
+      -- the total only grows
+      have mono : ∀ (l : List StrandObj) (p : Nat), p ≤ (layStrandAux l p).2 := by
+        intro l
+        induction l with
+        | nil => intro p; simp [layStrandAux]
+        | cons b l ih2 =>
+          intro p
+          simp only [layStrandAux]
+          exact Nat.le_trans (by omega) (ih2 (p + b.len + Generated.strandGap))
+      exact mono l _
+    | succ k =>
+      simp only [List.getElem?_cons_succ] at h
+      have := ih (p + a.len + Generated.strandGap) k h
+      simp only [List.take_succ_cons, List.map_cons, List.sum_cons]
+      omega
+
+/-- **Strand layout**: strand `k` starts after all earlier strands, each followed by `strandGap` blanks. -/
+theorem startS_closed (spec : Spec) {k : Nat} (hk : k < spec.strands.length) :
+    startS spec k = ((spec.strands.take k).map (fun o => o.len + Generated.strandGap)).sum := by
+  unfold startS
+  have : (layStrand spec).strandStart = (layStrandAux spec.strands 0).1 := rfl
+  rw [this, List.getD_eq_getElem?_getD, layStrandAux_closed _ _ _ hk]
+  simp
+
+theorem mem_seqInits_ge {spec : Spec} (wf : SpecWF spec) (e : Enc) {y : Nat}
+    (h : y ∈ (seqInits spec e).map (·.1)) : e.P ≤ y := by
+  obtain ⟨p, hp, rfl⟩ := List.mem_map.1 h
+  obtain ⟨num, o, x, hpx, _⟩ := seqInits_mem wf e hp
+  rw [hpx]; unfold Enc.sq; omega
+
+/-- the keys below `P` are exactly the strand positions -/
+theorem key_iff_pos_strand {tbl : CodeTable} {spec : Spec} (wf : SpecWF spec) (ok : SpecCodes tbl spec)
+    {s : Seeds} {c : Cons} (hs : seeds .strand spec = .ok s) (hb : build s = .ok c) {i : Nat} (hi : i < s.P) :
+    i ∈ c.keys ↔ ∃ q ∈ enum spec.strands, ∃ x, x < q.2.len ∧ i = startS spec q.1 + x := by
+  obtain ⟨li, ce, be, ee, se, te, h1, _, _, _, _, _, rfl⟩ := seeds_ok hs
+  rw [layOf_strand] at h1
+  obtain ⟨_, hkeys, _, _, _, _⟩ := build_spec (tbl := tbl) hb (seeds_codes ok hs)
+  have hli := layoutInits_strand spec
+  rw [h1] at hli
+  have hli := Except.ok.inj hli
+  rw [hkeys]
+  simp only [List.map_append, List.mem_append]
+  constructor
+  · rintro (h | h)
+    · rw [hli] at h
+      obtain ⟨p, hp, rfl⟩ := List.mem_map.1 h
+      obtain ⟨q, hq, hp⟩ := List.mem_flatMap.1 hp
+      obtain ⟨x, hx, rfl⟩ := List.mem_map.1 hp
+      exact ⟨q, hq, x, List.mem_range.1 hx, rfl⟩
+    · have := mem_seqInits_ge wf _ h
+      simp only [encOf] at this
+      rw [layOf_strand] at hi this
+      simp only at hi
+      omega
+  · rintro ⟨q, hq, x, hx, rfl⟩
+    left
+    rw [hli]
+    exact List.mem_map.2 ⟨(startS spec q.1 + x, 'N'),
+      List.mem_flatMap.2 ⟨q, hq, List.mem_map.2 ⟨x, List.mem_range.2 hx, rfl⟩⟩, rfl⟩
+
+/-- a strand position denotes the strand's nucleotide -/
+theorem denS_pos {tbl : CodeTable} {spec : Spec} (wf : SpecWF spec) (ok : SpecCodes tbl spec)
+    {s : Seeds} {c : Cons} (hs : seeds .strand spec = .ok s) (hb : build s = .ok c)
+    {q : Nat × StrandObj} (hq : q ∈ enum spec.strands) {x : Nat} (hx : x < q.2.len) :
+    denS spec (startS spec q.1 + x) = (nucsOfBases q.2.bases)[x]? := by
+  obtain ⟨D, _, _⟩ := seeds_sound_strand wf ok hs hb
+  obtain ⟨m, hm⟩ := getElem?_some_of_lt (l := nucsOfBases q.2.bases) (i := x)
+    (by rw [wf.strandLen q.2 (mem_enum hq).1]; exact hx)
+  rw [hm]
+  exact den_pos D (posTabStrand_mem (k := q.1) (o := q.2) hq hx hm)
 
 end Pepper.ConstraintGen
